@@ -83,7 +83,7 @@ def run(ctx):
             meta.append(("bragg", pname))
             ctx.case(("bragg", pname, pt["num"], route), {"apodization": pname, "kL": kLv, "expect": f"{pt['num']}/{pt['den']}"})
     # ---- 3. route equivalence: (fc | landa_D) x (kL | L | N) for the same vdneff
-    for it in range(10 if T else 4):
+    for it in range(40 if T else 4):
         fs = setgv(it)
         n = 256
         x = optical_signal(np.random.RandomState(50 + it).randn(n) + 0j)
@@ -106,7 +106,7 @@ def run(ctx):
             meta.append(("route", k_))
         ctx.case(("routes", apo, F_ != 0, vdn))
     # ---- 4. random designs: passivity, filter identity, energy, shape
-    for it in range(60 if T else 20):
+    for it in range(300 if T else 20):
         fs = setgv(it)
         n = rnd.choice([256, 512, 1024] + ([4096] if T else []))
         npol = 1 + it % 2
